@@ -11,10 +11,25 @@ verus! {
 
 //@ include prelude/strmap.rs
 //@ include prelude/scalar_hash.rs
+//@ include units/C20/strlit.rs
+//@ include prelude/capstone_x86.rs
+//@ include prelude/capstone_mips_ppc.rs
+//@ include prelude/bad64_reg.rs
+
+// `holds(b)` is `b`, hidden from Verus' evaluator (closed, other module): `assert(holds(e)) by (compute)` makes the
+// evaluator reduce `e` to a literal and hands `holds(<literal>)` to the solver, so that a check that evaluates to
+// false is reported as an ordinary failed assertion of ITS lemma (an `assert(e) by (compute)` that evaluates to false
+// makes Verus drop the whole module instead).  No axiom: lemma_holds is proved.
+pub mod hold {
+use vstd::prelude::*;
+pub closed spec fn holds(b: bool) -> bool { b }
+pub broadcast proof fn lemma_holds(b: bool) ensures #[trigger] holds(b) == b {}
+} // mod hold
 
 pub mod il {
 use super::*;
 use super::strmap::*;
+use super::strlit::string_of;
 broadcast use crate::strmap::axiom_into_string_str;
 //@ include units/C20/il_scalar.rs
 proof fn vf_canary_il() ensures false {}
@@ -25,11 +40,39 @@ pub mod calling_convention {
 use crate::*;
 use crate::il;
 use crate::il::{Scalar, named_scalar};
+use crate::translator::{TblRec, RegName, tbl_has, tbl_hit};
+use crate::translator::x86::*;
+use crate::translator::mips::*;
+use crate::translator::ppc::*;
+use crate::translator::aarch64::*;
 use std::collections::HashSet;
+use crate::hold::*;
+broadcast use {crate::hold::lemma_holds, crate::strmap::axiom_into_string_str, crate::scalar_hash::axiom_scalar_obeys_key_model, vstd::std_specs::hash::axiom_random_state_builds_valid_hashers};
 //@ include units/C20/cc.rs
+//@ include units/C20/abi.rs
+//@ include units/C20/cc_lemmas.rs
+//@ include units/C20/props.rs
+//@ include units/C20/cc_fns.rs
 proof fn vf_canary_cc() ensures false {}
 } // mod calling_convention
 } // mod analysis
+
+pub mod architecture {
+use vstd::prelude::*;
+use crate::analysis::calling_convention::*;
+use crate::il;
+use crate::translator;
+use crate::translator::{TranslatorId, Translator};
+use std::fmt::Debug;
+broadcast use crate::strmap::axiom_into_string_str;
+//@ include units/C20/arch.rs
+proof fn vf_canary_architecture() ensures false {}
+} // mod architecture
+
+pub mod translator {
+use vstd::prelude::*;
+//@ include units/C20/tables.rs
+} // mod translator
 
 proof fn vf_canary_root() ensures false {}
 
